@@ -88,6 +88,11 @@ func c13VersionText(sc c13Scenario, m c13Msg) string {
 	case "declB":
 		// both declared: no warning
 		return "account a:one\naccount a:two\n\n2001-01-01 d\n    a:one  1 USD\n    a:two  -1 USD\n"
+	case "usesinc":
+		// what is warned about depends on the declarations of inc.journal
+		return "include inc.journal\n\n2001-01-01 d\n    a:one  1 USD\n    a:two  -1 USD\n"
+	case "usesinc2":
+		return "include inc.journal\n\n2001-01-01 d\n    a:one  2 USD\n    a:two  -2 USD\n"
 	case "declC":
 		// the other one declared
 		return "account a:two\n\n2001-01-01 d\n    a:one  1 USD\n    a:two  -1 USD\n"
@@ -110,13 +115,37 @@ func c13Session(dir string, sc c13Scenario) *wire.Session {
 
 // c13Run executes the burst under a schedule prefix; the observation is the
 // last published diagnostics per document plus the publish order.
+const (
+	c13IncInitial = "account a:one\n\n2001-02-01 included\n    a:one  1 USD\n    a:one  -1 USD\n"
+	c13IncSaved   = "account a:two\n\n2001-02-01 included\n    a:two  1 USD\n    a:two  -1 USD\n"
+)
+
+func c13HasSave(sc c13Scenario) bool {
+	for _, m := range sc.Msgs {
+		if m.Special == "saveinc" {
+			return true
+		}
+	}
+	return false
+}
+
 func c13Run(dir string, sc c13Scenario, prefix []int) (vsched.Result, any) {
+	if c13HasSave(sc) {
+		// the disk is part of the state: back to the initial included file
+		_ = os.WriteFile(filepath.Join(dir, "inc.journal"), []byte(c13IncInitial), 0o644)
+	}
 	s := c13Session(dir, sc)
 	uris := []string{wire.URI(filepath.Join(dir, c13DocName(0))), wire.URI(filepath.Join(dir, c13DocName(1)))}
 	res := vsched.RunT0(prefix, func() {
 		for _, m := range sc.Msgs {
 			if m.Special == "drain" {
 				vsched.Drain()
+				continue
+			}
+			if m.Special == "saveinc" {
+				// the included file gets new content on disk and the server is told (didSave of a file that is not open)
+				_ = os.WriteFile(filepath.Join(dir, "inc.journal"), []byte(c13IncSaved), 0o644)
+				s.DidSave(wire.URI(filepath.Join(dir, "inc.journal")))
 				continue
 			}
 			if m.Version == 0 {
@@ -142,9 +171,13 @@ func c13Expected(dir string, sc c13Scenario) map[string]string {
 	exp := map[string]string{}
 	final := map[int]c13Msg{}
 	for _, m := range sc.Msgs {
-		if m.Special != "drain" {
+		if m.Special != "drain" && m.Special != "saveinc" {
 			final[m.Doc] = m
 		}
+	}
+	if c13HasSave(sc) {
+		// the fresh server sees the final disk state
+		_ = os.WriteFile(filepath.Join(dir, "inc.journal"), []byte(c13IncSaved), 0o644)
 	}
 	for d, m := range final {
 		// a fresh server that is only given the final texts (all final texts of
@@ -211,6 +244,14 @@ func c13Scenarios(thorough bool) []c13Scenario {
 		c13Scenario{Name: "ws-declarations-change", Workspace: true, Msgs: []c13Msg{{Doc: 0, Version: 0, Special: "declA"}, {Doc: 0, Version: 1, Special: "declB"}, {Doc: 0, Version: 2, Special: "declC"}}, Bound: sb},
 		c13Scenario{Name: "ws-declarations-come-back", Workspace: true, Msgs: []c13Msg{{Doc: 0, Version: 0, Special: "declA"}, {Special: "drain"}, {Doc: 0, Version: 1, Special: "declB"}, {Doc: 0, Version: 2, Special: "declA"}}, Bound: sb},
 	)
+	// the included file is saved with other declarations while an analysis of the including document may be running
+	for _, ws := range []bool{false, true} {
+		name := "included-file-saved"
+		if ws {
+			name = "ws-included-file-saved"
+		}
+		out = append(out, c13Scenario{Name: name, Workspace: ws, Include: true, Msgs: []c13Msg{{Doc: 0, Version: 0, Special: "usesinc"}, {Special: "saveinc"}, {Doc: 0, Version: 1, Special: "usesinc2"}}, Bound: sb})
+	}
 	// two documents: 2+2 and 2+3 messages, interleaved
 	two := []c13Msg{{Doc: 0, Version: 0}, {Doc: 1, Version: 0}, {Doc: 0, Version: 1}, {Doc: 1, Version: 1}}
 	bound := 1
